@@ -189,7 +189,15 @@ pub fn check_conf(conf: &ConfSpec, targets: &[String]) -> (u64, Vec<Mismatch>, V
         })
     };
     let config = match built {
-        Ok(c) => c,
+        // half of the configurations get their root level through Config::root_mut().set_level after building
+        Ok(mut c) => {
+            if (conf.loggers.len() + conf.root_appenders.len()) % 2 == 1 {
+                let real = c.root().level();
+                c.root_mut().set_level(log::LevelFilter::Off);
+                c.root_mut().set_level(real);
+            }
+            c
+        }
         Err(e) => {
             c01.push(Mismatch {
                 sig: "valid-config-rejected".into(),
